@@ -190,7 +190,7 @@ def S(macro: str, operands: List[O], model: Any, doc: str, requires: str = '', *
     if not requires:
         operands = operands + [hid('kept_add_carry', 'k', 1, 'add_carry'), hid('kept_sub_carry', 'k', 1, 'sub_carry'),
                                hid('kept_mul_dst', 'k', 4, 'mul_dst'), hid('kept_mul_carry', 'k', 4, 'mul_carry')]
-    return Spec(macro, operands, model, f'hex/{doc}', needs='hex', widths=(32, 64), **kw)
+    return Spec(macro, operands, model, f'hex/{doc}', needs='hex', widths=(32, 64), requires=requires, **kw)
 
 
 def N() -> O:
